@@ -129,34 +129,108 @@ ASSUMPTIONS = [
 SHARDS = {"quick": 4, "thorough": 16}
 BUDGET_S = {"quick": 60, "thorough": 660}
 FLOORS = {
-    # quick floors = about 1/4 of the minimum over seeds 0..4 (4 shards x 60 s on a busy 16-core machine)
-    "quick": {"schedules": 250, "sched.steps": 400000, "interleavings.distinct": 250, "reader.iterations": 2000,
-              "held.iterations_with_commit": 600, "held.commits_during_hold": 1000,
-              "held.lazy_first_touch_after_commit": 300, "held.everything_first_touched_after_commit": 90,
-              "held.evals": 2000, "open.evals": 900, "refresh.evals": 900, "refresh.after_merge": 140,
-              "refresh.reused_segment_readers": 180, "uptodate.evals": 2000, "uptodate.false": 700, "uptodate.true": 1100,
-              "popA.schedules": 120, "popB.schedules": 120, "storage.ram.schedules": 80,
-              "storage.file-mmap.schedules": 80, "storage.file-nommap.schedules": 80, "tx.kind.optimize": 90,
-              "tx.kind.default": 180, "tx.kind.clear": 90, "tx.kind.delete-only": 90, "open.paused_inside": 600,
-              "reader.open_retries": 20, "open.via_new_index_object": 150, "commits.published": 800, "proc.histories": 5, "proc.held_evals": 120,
-              "proc.held_across_commit": 20, "proc.final_checks": 5,
+    # quick floors = about 1/3 of the minimum over seeds 0..4 (4 shards x 60 s on a busy 16-core machine, after the probes
+    # grew by the further read APIs and every 4th schedule became a LINE-level one)
+    "quick": {"schedules": 200, "sched.steps": 360000, "interleavings.distinct": 200, "reader.iterations": 1400,
+              "held.iterations_with_commit": 410, "held.commits_during_hold": 760,
+              "held.lazy_first_touch_after_commit": 230, "held.everything_first_touched_after_commit": 66,
+              "held.evals": 1400, "open.evals": 660, "refresh.evals": 710, "refresh.after_merge": 82,
+              "refresh.reused_segment_readers": 120, "uptodate.evals": 1200, "uptodate.false": 500, "uptodate.true": 710,
+              "popA.schedules": 99, "popB.schedules": 92, "storage.ram.schedules": 65,
+              "storage.file-mmap.schedules": 67, "storage.file-nommap.schedules": 65, "tx.kind.optimize": 50,
+              "tx.kind.default": 91, "tx.kind.clear": 43, "tx.kind.delete-only": 48, "open.paused_inside": 490,
+              "reader.open_retries": 18, "open.via_new_index_object": 180, "commits.published": 710,
+              "proc.histories": 4, "proc.held_evals": 110, "proc.held_across_commit": 18, "proc.final_checks": 4,
               # re-reads, after files of the searcher's loose segments were removed, of parts / of the user-facing
-              # column parts that this searcher had read before (about 1/3 of the minimum over seeds 0..3: 235 / 187)
-              "held.loose_removed.reread_of_parts_read_before": 75,
-              "held.loose_removed.reread_of_user_columns_read_before": 60},
-    # thorough floors = about 1/4 of one 16-shard x 660 s run on the same busy machine
-    "thorough": {"schedules": 6000, "sched.steps": 9000000, "interleavings.distinct": 6000, "reader.iterations": 45000,
-                 "held.iterations_with_commit": 14000, "held.commits_during_hold": 25000,
-                 "held.lazy_first_touch_after_commit": 8000, "held.evals": 45000, "open.evals": 20000,
-                 "refresh.evals": 22000, "refresh.after_merge": 3500, "refresh.reused_segment_readers": 4500,
-                 "uptodate.evals": 45000, "uptodate.false": 18000, "uptodate.true": 28000, "popA.schedules": 3000,
-                 "popB.schedules": 3000, "storage.ram.schedules": 2000, "storage.file-mmap.schedules": 2000,
-                 "storage.file-nommap.schedules": 2000, "tx.kind.optimize": 2300, "tx.kind.default": 4500,
-                 "tx.kind.clear": 2300, "tx.kind.delete-only": 2300, "open.paused_inside": 15000,
-                 "commits.published": 20000, "proc.histories": 250, "proc.reader_iterations": 8000,
-                 "proc.held_across_commit": 1000, "held.loose_removed.reread_of_parts_read_before": 1400,
-                 "held.loose_removed.reread_of_user_columns_read_before": 1100,
-                 "proc.loose.reread_of_user_columns_after_commit": 150},
+              # column parts that this searcher had read before
+              "held.loose_removed.reread_of_parts_read_before": 52,
+              "held.loose_removed.reread_of_user_columns_read_before": 37,
+              # LINE-level reach: schedules, yields, transaction-long parks at a LINE inside ix.searcher()/refresh(),
+              # schedules / calls in which a commit COMPLETED (and clean_files removed segment files) while a reader
+              # was inside such a call, line events seen inside such calls per function, parks per function
+              "lines.schedules": 49, "lines.yields": 67000, "lines.parked_inside_open": 230,
+              "lines.schedules_with_commit_completed_inside_open": 47,
+              "lines.schedules_with_segment_files_removed_inside_open": 45,
+              "lines.commit_completed_while_parked_at_a_line": 90, "lines.open.commit_completed_inside": 78,
+              "lines.refresh.commit_completed_inside": 20, "inside_open.commit_completed": 240,
+              "uptodate.line_level_decided_True": 79, "uptodate.line_level_decided_False": 51,
+              "lines.inside_open_events_in.FileIndex.reader": 1400, "lines.inside_open_events_in.FileIndex._reader": 3300,
+              "lines.inside_open_events_in.FileIndex._reader.<locals>.segreader": 3200,
+              "lines.inside_open_events_in.FileIndex.latest_generation": 130,
+              "lines.inside_open_events_in.FileIndex._read_toc": 200, "lines.inside_open_events_in.TOC.read": 6700,
+              "lines.inside_open_events_in.TOC._latest_generation": 19000,
+              "lines.inside_open_events_in.SegmentReader.__init__": 5500,
+              "lines.inside_open_events_in.MultiReader.__init__": 2500,
+              "lines.inside_open_events_in.Searcher.__init__": 28000, "lines.inside_open_events_in.Searcher.refresh": 620,
+              "lines.inside_open_events_in.FileStorage.open_file": 1100,
+              "lines.inside_open_events_in.FileStorage.list": 920, "lines.inside_open_events_in.RamStorage.open_file": 990,
+              "lines.inside_open_events_in.RamStorage.list": 100,
+              "lines.inside_open_events_in.CompoundStorage.__init__": 5900,
+              "lines.inside_open_events_in.CompoundStorage.open_file": 3900,
+              "lines.inside_open_events_in.OverlayStorage.open_file": 1300,
+              "lines.inside_open_events_in.Segment.open_compound_file": 1000,
+              "lines.inside_open_events_in.W3TermsReader.__init__": 6900,
+              "lines.inside_open_events_in.W3PerDocReader.__init__": 3700,
+              "lines.inside_open_events_in._same_deletions": 340, "lines.parked_in.FileIndex.reader": 6,
+              "lines.parked_in.FileIndex._reader": 3, "lines.parked_in.TOC.read": 20,
+              "lines.parked_in.TOC._latest_generation": 76, "lines.parked_in.SegmentReader.__init__": 2,
+              "lines.parked_in.Searcher.refresh": 5,
+              # deletion-set and schema transactions, and refreshes that met them
+              "refresh.kept_segment_with_changed_deletions_and_new_segment": 110,
+              "refresh.kept_segment_with_same_count_other_deletions": 16,
+              "refresh.kept_segment_with_undeleted_document": 28, "tx.kind.swapdel": 32, "tx.kind.swapdel-append": 15,
+              "tx.kind.undelete": 22, "tx.kind.olddel-append": 37, "tx.kind.add-field": 41,
+              "tx.kind.add-field-merge": 20, "tx.kind.remove-field": 13, "schema.schedules": 72,
+              # refresh() from a generation before to one after an add_field() / remove_field() commit (with segments
+              # that survive it: their open readers carry the old Schema)
+              "refresh.across_schema_change": 40, "refresh.across_schema_change_with_kept_segments": 30},
+    # thorough floors = about 1/4 of one 16-shard x 660 s run on the same busy machine (same counters as the quick tier)
+    "thorough": {"schedules": 3300, "sched.steps": 6600000, "interleavings.distinct": 3300, "reader.iterations": 22000,
+                 "held.iterations_with_commit": 6400, "held.commits_during_hold": 11000,
+                 "held.lazy_first_touch_after_commit": 3600, "held.evals": 22000, "open.evals": 10000, "refresh.evals":
+                 11000, "refresh.after_merge": 1200, "refresh.reused_segment_readers": 2200, "uptodate.evals": 19000,
+                 "uptodate.false": 7900, "uptodate.true": 11000, "popA.schedules": 1700, "popB.schedules": 1600,
+                 "storage.ram.schedules": 1100, "storage.file-mmap.schedules": 1100, "storage.file-nommap.schedules":
+                 1100, "tx.kind.optimize": 820, "tx.kind.default": 1500, "tx.kind.clear": 810, "tx.kind.delete-only":
+                 780, "open.paused_inside": 8100, "commits.published": 12000, "proc.histories": 140,
+                 "proc.reader_iterations": 4000, "proc.held_across_commit": 580,
+                 "held.loose_removed.reread_of_parts_read_before": 850,
+                 "held.loose_removed.reread_of_user_columns_read_before": 640,
+                 "proc.loose.reread_of_user_columns_after_commit": 150, "held.everything_first_touched_after_commit":
+                 1000, "reader.open_retries": 380, "open.via_new_index_object": 3200, "proc.held_evals": 4000,
+                 "proc.final_checks": 140, "lines.schedules": 1100, "lines.yields": 1700000, "lines.parked_inside_open":
+                 5200, "lines.schedules_with_commit_completed_inside_open": 1000,
+                 "lines.schedules_with_segment_files_removed_inside_open": 1000,
+                 "lines.commit_completed_while_parked_at_a_line": 2100, "lines.open.commit_completed_inside": 1800,
+                 "lines.refresh.commit_completed_inside": 570, "inside_open.commit_completed": 4700,
+                 "uptodate.line_level_decided_True": 1700, "uptodate.line_level_decided_False": 1200,
+                 "lines.inside_open_events_in.FileIndex.reader": 34000, "lines.inside_open_events_in.FileIndex._reader":
+                 80000, "lines.inside_open_events_in.FileIndex._reader.<locals>.segreader": 86000,
+                 "lines.inside_open_events_in.FileIndex.latest_generation": 3000,
+                 "lines.inside_open_events_in.FileIndex._read_toc": 4700, "lines.inside_open_events_in.TOC.read": 160000,
+                 "lines.inside_open_events_in.TOC._latest_generation": 530000,
+                 "lines.inside_open_events_in.SegmentReader.__init__": 140000,
+                 "lines.inside_open_events_in.MultiReader.__init__": 66000,
+                 "lines.inside_open_events_in.Searcher.__init__": 720000, "lines.inside_open_events_in.Searcher.refresh":
+                 14000, "lines.inside_open_events_in.FileStorage.open_file": 31000,
+                 "lines.inside_open_events_in.FileStorage.list": 21000,
+                 "lines.inside_open_events_in.RamStorage.open_file": 27000,
+                 "lines.inside_open_events_in.RamStorage.list": 3000,
+                 "lines.inside_open_events_in.CompoundStorage.__init__": 130000,
+                 "lines.inside_open_events_in.CompoundStorage.open_file": 92000,
+                 "lines.inside_open_events_in.OverlayStorage.open_file": 30000,
+                 "lines.inside_open_events_in.Segment.open_compound_file": 23000,
+                 "lines.inside_open_events_in.W3TermsReader.__init__": 170000,
+                 "lines.inside_open_events_in.W3PerDocReader.__init__": 95000,
+                 "lines.inside_open_events_in._same_deletions": 10000, "lines.parked_in.FileIndex.reader": 160,
+                 "lines.parked_in.FileIndex._reader": 140, "lines.parked_in.TOC.read": 580,
+                 "lines.parked_in.TOC._latest_generation": 1900, "lines.parked_in.SegmentReader.__init__": 100,
+                 "lines.parked_in.Searcher.refresh": 130, "refresh.kept_segment_with_changed_deletions_and_new_segment":
+                 1900, "refresh.kept_segment_with_same_count_other_deletions": 300,
+                 "refresh.kept_segment_with_undeleted_document": 480, "tx.kind.swapdel": 630, "tx.kind.swapdel-append":
+                 320, "tx.kind.undelete": 420, "tx.kind.olddel-append": 700, "tx.kind.add-field": 740,
+                 "tx.kind.add-field-merge": 380, "tx.kind.remove-field": 240, "schema.schedules": 1100,
+                 "refresh.across_schema_change": 820, "refresh.across_schema_change_with_kept_segments": 640},
 }
 
 VOCAB = ["alfa", "bravo", "charlie", "delta", "echo", "foxtrot", "golf", "hotel"]
@@ -1733,7 +1807,8 @@ def run_proc_case(ctx, idx, rng):
         models = {g0: dict(model)}
         script = []
         g = g0
-        for j in range(rng.randint(4, 8)):
+        # (thorough tier: 4 more transactions per history; the draws are the same in both tiers)
+        for j in range(rng.randint(4, 8) + ctx.pick(0, 4)):
             tx = gen_tx(rng, docgen, model, kind=rng.choice([k for k in TX_KINDS if k != "cancel"]))
             script.append(tx)
             if tx["kind"] == "clear":
